@@ -54,9 +54,10 @@ pub proof fn lemma_same_doc_wf_tree(f1: &Fsm, f2: &Fsm)
     let r = rank(f1);
     assert(has_rank(f1, r));
     assert(has_rank(f2, r)) by {
-        assert forall|s: u32| valid_id(f2, s) && parent_of(f2, s) != 0 implies rk_at(r, parent_of(f2, s)) < #[trigger] rk_at(r, s) by {
+        assert forall|s: u32| valid_id(f2, s) && parent_of(f2, s) != 0 implies #[trigger] rank_step(f2, r, s) by {
             assert(state_same(st(f1, s), st(f2, s)));
             assert(parent_of(f1, s) == parent_of(f2, s));
+            assert(rank_step(f1, r, s));
         }
     }
     assert forall|s: u32| valid_id(f2, s) implies #[trigger] child_linked(f2, s) by {
